@@ -11,7 +11,7 @@ THEOREMS = [
     "Order1d.dedupe_total", "Order1d.dedupe_representatives", "Order1d.dedupe_matrix",
     "Order1d.distances_abs", "Order1d.flows_diag_zero", "Order1d.flows_beyond_horizon_zero",
     "Order1d.flows_equal_on_ties", "Order1d.flows_antitone", "Order1d.flows_inside_positive",
-    "Order1d.flows_strict_inside", "Order1d.fromSequence_spec",
+    "Order1d.flows_strict_inside", "Order1d.fromSequence_spec", "Order1d.fromSequence_total",
     "Order1d.swapDistance_noOOB", "Order1d.swapDistance_eq_n_minus_cycles",
     "Order1d.swapDistance_upper", "Order1d.swapDistance_lower",
     "Order1d.swapDistance_is_min_transpositions", "Order1d.swapDistance_symm",
@@ -246,6 +246,8 @@ def add_ctor(ck: Check, ops, meta, D, p, h):
     ops.append(line)
     meta.append(("o1K", "ctor" if m == n else "ctor_nonsquare", iout, None))
     ck.count("ctor" if m == n else "ctor_nonsquare")
+    if any(len(r) != m for r in D):
+        ck.count("ctor_ragged")
     ck.case(line, nontrivial=inst is not None)
     if inst is not None and m == n:
         line = (f"o1C {h} 1 ; {fmt_matrix(D)} ; {fmt_matrix(inst.distances.tolist())} ; "
@@ -319,6 +321,8 @@ def instance_streams(ck: Check) -> None:
         D = [[rng.randint(0, hi) for _ in range(m)] for _ in range(n)]
         h = rng.randint(1, n + 2)
         add_ctor(ck, ops, meta, D, safe_power(rng, max(n, m), h, ck.quick), h)
+    for D in ([[0, 1], [1]], [[0, 1, 2], [1, 0], [1, 2, 0]], [[0], [1, 0]]):   # ragged: np.array refuses
+        add_ctor(ck, ops, meta, D, 1, 2)
     eval_instance_ops(ck, ops, meta)
 
 
@@ -464,9 +468,7 @@ def swap_streams(ck: Check) -> None:
             a1 = a(p1)
             s1 = fmt_ints(p1)
             for p2 in perms:
-                v = int(swap_distance(a1, a(p2))) if n > 0 else None
-                if n == 0:
-                    continue
+                v = int(swap_distance(a1, a(p2)))
                 ops.append(f"o1S {s1} ; {fmt_ints(p2)}")
                 meta.append(("pair", n, v, p1, p2))
         ck.count(f"swap_allpairs_n{n}", len(sources) * len(perms))
@@ -584,22 +586,36 @@ def replay(path: str) -> int:
 
 
 def check(ck: Check) -> None:
-    ck.rule = ("instances: exhaustive (every upper-triangular distance table over {0,1,2} for N<=3 (4: sample/all, 5 over {0,1} "
-               "thorough) x horizons 1..N+2 x powers) + boundary value sequences x 8 distance functions (metric, non-metric, "
-               "asymmetric, float) + structured random sequences/matrices + parameter guards + constructor on arbitrary "
-               "matrices; swap distance: all pairs of permutations up to length 5 (quick) / 6 (thorough), BFS minimum for all "
-               "sources up to length 4/6 and sampled sources for 5/7, random pairs up to length 200, malformed arrays. "
-               "A case is one protocol line; non-trivial = accepted instance / evaluated kernel; distinct by line hash")
+    ck.rule = ("instances: exhaustive small scope (every upper-triangular distance table over {0,1,2} for N<=3, N=4 sampled "
+               "(quick) / all (thorough), N=5 over {0,1,2}-patterns (thorough), each x horizons 1..N+2 x integer powers; the lower "
+               "triangle holds values the code must never read) + boundary value sequences (all equal, all different, outlier, "
+               "duplicates of first/last) x 8 distance functions (metric, non-metric, non-transitive zero, asymmetric, exact and "
+               "inexact floats) x horizons 1..N+2 + structured random sequences and random asymmetric matrices with zeros and ties "
+               "(powers with exact float results, both the doubled and the plain rank path) + parameter/distance guards + the "
+               "constructor alone on arbitrary (also non-square, ragged) matrices + float powers (clauses tested on the "
+               "implementation only). swap distance: malformed arrays (wrong length, out-of-range, negative, duplicate entries, "
+               "non-range keys) in a child process, all pairs of permutations up to length 5 (quick: 60 sources for 5) / 6 "
+               "(thorough), breadth-first minimum from every source up to length 4 (quick) / 6 (thorough) and sampled sources "
+               "for length 5 / 7, random pairs of length 1..12, 16, 33, 64, 100, 200. A case is one protocol line; non-trivial = "
+               "accepted instance / evaluated kernel; distinct by line hash")
     ck.assumptions += [
-        "scipy.stats.rankdata(method='average') - 1, doubled, equals rank2 = 2*#{smaller} + #{equal} - 1 (checked through every flow matrix)",
-        "distances are exactly comparable numbers that numpy stores without loss (int64 or float64); distances above 2^63 "
-        "become float64/object arrays and are outside the model",
-        "float arithmetic multiplier*(max_val-f+1)**p is exact: integer powers with (2*max_val+2)^p < 2^53; between 2^53 and 2^63 "
-        "the code rounds (not modelled); float powers (1.5, ...) are outside the model: the clauses are TESTED on the implementation",
-        "the QAP super-constructor stores distances and flows value for value (property C09)",
+        "scipy.stats.rankdata(method='average') - 1, doubled, equals rank2 = 2*#{smaller} + #{equal} - 1 (external; checked "
+        "through every compared flow matrix on both rank paths)",
+        "distances are numbers numpy stores without loss (int64 or float64, compared exactly); integer distances of 2^63 and more "
+        "become float64/object arrays and are outside the model (the guard 0 <= d <= 1e100 itself is modelled and compared)",
+        "float arithmetic multiplier*(max_val-f+1)**p is exact: integer powers with (2*max_val+2)^p < 2^53 (libm pow exact on "
+        "exactly representable results); between 2^53 and 2^63 the code rounds (not modelled), from 2^63 on it raises (modelled); "
+        "float powers (1.5, ...) are outside the model: the property's clauses are TESTED on the implementation",
+        "the QAP super-constructor stores distances and flows value for value and raises nothing for in-range values (C09)",
         "np.argsort returns the unique sorting index list for pairwise different keys; numba compiles swap_distance as written "
-        "(negative indices wrap around)",
-        "tags/get_tags, names and logging are outside the model",
+        "(int64 arithmetic, negative indices wrap around); a `while` walk of more than 2n steps never ends",
+        "get_tags / tag checks, instance names and logging are outside the model; objects are identified by their position",
+    ]
+    ck.notes += [
+        "minimum number of transpositions: PROVED for all lengths (swapDistance_is_min_transpositions); the breadth-first "
+        "enumeration over the Cayley graph (coverage.exhaustive_enumeration) is an additional test of the implementation, "
+        "labelled enumeration, not proof",
+        "float flow powers: test only (spec oracle on implementation outputs; bonus clauses insidepos/strict not applied)",
     ]
     ck.not_proved += NOT_PROVED
     ck.lean(["Props.C20"], THEOREMS)
